@@ -13,8 +13,8 @@ structure Inv (s : State) : Prop where
   /-- registrations, holds and non-idle program counters belong to callers -/
   lv : ∀ (t : Tid), s.live t = true → t < s.n
   pn : ∀ (t : Tid), s.pcs t ≠ .idle → t < s.n
-  cn : ∀ (t : Tid) (w : Bool), s.chBuf = some (t, w) → t < s.n
-  hn : ∀ (t : Tid) (w : Bool), s.hpc = .slot t w ∨ s.hpc = .have t w → t < s.n
+  cn : ∀ (t : Tid) (g : Nat) (w : Bool), s.chBuf = some (t, g, w) → t < s.n
+  hn : ∀ (t : Tid) (g : Nat) (w : Bool), s.hpc = .slot t g w ∨ s.hpc = .have t g w → t < s.n
   /-- the handler leaves its loop only after close -/
   ex : s.hpc = .exiting ∨ s.hpc = .dead → s.closed = true
   /-- a grace goroutine that woke by its timer waited the grace period -/
@@ -34,7 +34,7 @@ theorem inv_init (n g : Nat) : Inv (init n g) := by
   constructor <;> simp [init]
 
 macro "oc_close" : tactic =>
-  `(tactic| (constructor <;> dsimp only <;> grind [rcancel, launchAll]))
+  `(tactic| (constructor <;> dsimp only <;> grind [rcancel, launchAll, deliver]))
 
 set_option maxHeartbeats 4000000 in
 theorem inv_step (s : State) (a : L) (s' : State) (h : Inv s) (hs : lts.step s a = some s') : Inv s' := by
